@@ -48,6 +48,9 @@ type Machine struct {
 	funcs     map[string]FuncInfo
 	allocs    map[string]bool
 	diffs     []DiffRec
+	diffSeen  int
+	diffTick  int
+	diffRnd   uint64
 	witnessed map[string]bool
 	intrCache sync.Map
 }
@@ -199,10 +202,33 @@ func (m *Machine) wantWitnessVec(tag string) bool {
 	return true
 }
 
-func (m *Machine) recordDiff(script string, got sym.Result, label string) {
+// wantDiff thins the stream of candidate queries cheaply (1 in 16 once the
+// reservoir is full) before the script text is built.
+func (m *Machine) wantDiff() bool {
 	m.mu.Lock()
 	defer m.mu.Unlock()
-	m.diffs = append(m.diffs, DiffRec{script, got, label})
+	if len(m.diffs) < 400 {
+		return true
+	}
+	m.diffTick++
+	return m.diffTick%16 == 0
+}
+
+// recordDiff keeps a bounded reservoir sample of assertion queries for the
+// cross-solver diff (keeping all of them exhausts memory on large runs).
+func (m *Machine) recordDiff(script string, got sym.Result, label string) {
+	const capN = 400
+	m.mu.Lock()
+	defer m.mu.Unlock()
+	m.diffSeen++
+	if len(m.diffs) < capN {
+		m.diffs = append(m.diffs, DiffRec{script, got, label})
+		return
+	}
+	m.diffRnd = m.diffRnd*6364136223846793005 + 1442695040888963407
+	if j := int((m.diffRnd >> 33) % uint64(m.diffSeen)); j < capN {
+		m.diffs[j] = DiffRec{script, got, label}
+	}
 }
 
 // ---- exploration ----
@@ -262,6 +288,8 @@ func (m *Machine) Explore(pkgPath, entry string) (*RunResult, error) {
 	m.mu.Lock()
 	m.witnessed = map[string]bool{}
 	m.diffs = nil
+	m.diffSeen = 0
+	m.diffRnd = 1
 	m.mu.Unlock()
 
 	var mu sync.Mutex
